@@ -30,7 +30,9 @@ class Ctx:
     def __init__(self, pid, tier, seed):
         self.pid, self.tier, self.seed = pid, tier, seed
         self.quick = tier == "quick"
-        base = os.environ.get("VERIF_WORK") or tempfile.gettempdir()
+        # scratch: tmpfs when there is one (replaying ~10^5 tiny sandboxes is dominated by file-system latency)
+        shm = "/dev/shm"
+        base = os.environ.get("VERIF_WORK") or (shm if os.path.isdir(shm) and os.access(shm, os.W_OK) else tempfile.gettempdir())
         os.makedirs(base, exist_ok=True)
         self.work = tempfile.mkdtemp(prefix="verif-%s-" % pid, dir=base)
         self.t0 = time.time()
